@@ -21,7 +21,22 @@ VALUES = [["str", ""], ["str", "plain"], ["str", "héllo ✓ 😀"], ["str", "x"
           ["strenum"], ["strsub"], ["bytessub"], ["boolval"]]      # instances of SUBCLASSES of types with a dedicated codec
 EXPECTED_REF = {"str": "local.string", "bytes": "local.bytes", "bytearray": "local.bytes", "none": "local.pickle", "object": "local.pickle",
                 "int": "local.pickle", "user": "local.pickle", "frame": "local.pandas", "strenum": "local.pickle", "strsub": "local.pickle",
-                "bytessub": "local.pickle", "boolval": "local.pickle"}
+                "bytessub": "local.pickle", "boolval": "local.pickle", "series": "local.pickle"}
+# pandas frames by shape (built by drive_codec._frames): each name is a boundary of what the parquet file has to carry besides the cells
+FRAMES = ["default", "range_offset", "range_step", "range_offset_step", "range_reversed", "range_named", "range_offset_named", "range_from_one",
+          "range_empty_slice", "range_one_row", "int_selected", "int_selected_none", "int_duplicated", "int_named", "int_sorted_values", "uint8_index",
+          "float_index", "bool_index", "str_index", "str_index_unnamed", "str_index_non_ascii", "multi_index", "multi_index_unnamed",
+          "multi_index_half_named", "datetime_index", "datetime_index_regular", "datetime_index_tz", "timedelta_index", "period_index",
+          "categorical_index", "index_named_like_a_column", "index_named_index", "categorical_columns", "datetime_columns", "nullable_columns",
+          "object_columns", "float_columns", "small_int_columns", "interval_column", "list_column", "mixed_object_column", "no_row",
+          "no_row_no_column", "no_column", "no_column_labelled", "one_cell", "wide", "wide_sliced", "column_names_text", "column_names_int",
+          "column_names_mixed", "column_names_duplicated", "columns_named", "multi_columns", "multi_columns_sliced", "with_attrs"]
+LARGE_FRAMES = ["large_sliced", "large_labelled"]          # 300 000 / 200 000 rows: thorough tier
+SERIES = ["default", "named_sliced", "str_index", "empty", "categorical"]
+FRAME_VALUES = [["frame", n] for n in FRAMES] + [["series", n] for n in SERIES]
+# what goes through the public API besides the frames: one value per builtin codec, at its edges
+API_BUILTINS = [["str", ""], ["str", "héllo ✓ 😀"], ["str", "id,name\r\n1,a\r\n2,b\rc\n"], ["str", "\ufeffbom \x00 nul \x1a sub \u2028 ls \x85 nel\n\n"],
+                ["bytes", "0d0a1a000d"], ["bytes", ""], ["bytearray", "0102"], ["none"], ["object"], ["int", 5], ["boolval"]]
 REGS = [{"kind": "file", "ref": "user.str2", "type": "str"}, {"kind": "codec", "ref": "user.strc", "type": "str"},
         {"kind": "file", "ref": "user.bytes2", "type": "bytes"}, {"kind": "codec", "ref": "user.thing", "type": "user"},
         {"kind": "file", "ref": "user.obj", "type": "object"}, {"kind": "codec", "ref": "user.none", "type": "none"},
@@ -31,12 +46,110 @@ REGS = [{"kind": "file", "ref": "user.str2", "type": "str"}, {"kind": "codec", "
 def type_name(v):
     return {"str": "str", "bytes": "bytes", "bytearray": "bytearray", "none": "NoneType", "object": "dict", "int": "int",
             "user": "__main__.UserThing", "frame": "pandas.core.frame.DataFrame", "strenum": "__main__.Color", "strsub": "__main__.TaggedStr",
-            "bytessub": "__main__.Digest", "boolval": "bool"}[v[0]]
+            "bytessub": "__main__.Digest", "boolval": "bool", "series": "pandas.core.series.Series"}[v[0]]
 
 
 def reg_coq(r):
     t = {"str": "str", "bytes": "bytes", "user": "__main__.UserThing", "object": "object", "none": "NoneType"}[r["type"]]
     return f'({"RFile" if r["kind"] == "file" else "RCodec"} {C.hexs(r["ref"])} [{C.hexs(t)}])'
+
+
+def is_shape(v):
+    return v[0] in ("frame", "series") and len(v) > 1
+
+
+def label(v):
+    return f"{v[0]} '{v[1]}'" if is_shape(v) else v[0]
+
+
+class Shapes:
+    """Collects what happened to the pandas values: failures are reported once per channel with every shape concerned."""
+
+    def __init__(self):
+        self.differs = {}          # channel -> [(label, description, replay)]
+        self.as_bare = {}          # shape -> description: read back exactly as the bare parquet round trip gives it, which is not the frame
+        self.refused = {}          # shape -> the format refuses the frame (so does the store, loudly)
+        self.checked = 0
+        self.replay_as_bare = None
+
+    def verdict(self, v, channel, x, replay, ctx=""):
+        """x: 'equal' | 'ASBARE:...' | anything else (a difference, an exception)"""
+        self.checked += 1
+        if x == "equal":
+            return
+        if x.startswith("ASBARE:"):
+            self.as_bare.setdefault(v[1], x[7:])
+            self.replay_as_bare = self.replay_as_bare or replay
+            return
+        self.differs.setdefault((v[0], channel), []).append((label(v) + ctx, x, replay, v))
+
+    def report(self, rep):
+        for (t, channel), items in sorted(self.differs.items()):
+            names, failing = [], []
+            for _, _, _, v in items:
+                if v not in failing:
+                    failing.append(v)
+                    names.append(v[1])
+            rep.violation(f"read-back-differs:{t}:{channel}", f"{len(names)} pandas value(s) are not read back as they were stored ({channel}): first {items[0][0]}: "
+                          f"{items[0][1].replace('DIFFERENT:', '')[:230]}; all {t}s concerned: {', '.join(names)[:600]}", dict(items[0][2], failing=failing))
+        if self.as_bare:
+            rep.violation("frame-altered-by-parquet-itself", "frames that the store reads back different from the frame that was stored, exactly as a plain pandas to_parquet / "
+                          "read_parquet round trip alters them (nothing is refused or logged by dds): " + "; ".join(f"'{k}': {d[:120]}" for k, d in sorted(self.as_bare.items())),
+                          dict(self.replay_as_bare or {}, failing=[["frame", k] for k in sorted(self.as_bare)]))
+
+
+def run_api(case):
+    """The values are results of functions kept through the public API: process 1 (registrations pre) evaluates a pipeline that keeps them all,
+    registers mid, then obtains each of them again by a second dds.keep, by dds.load and by opening the file under the data directory with another
+    tool; process 2 (registrations second) does the same reads."""
+    d = tempfile.mkdtemp(prefix="c17a_", dir=C.scratch_dir())
+    try:
+        o1 = C.run_driver("drive_codec_api.py", {"dir": d, "phase": "write", "values": case["values"], "pre": case["pre"], "mid": case["mid"], "cache_objects": case.get("cache")})
+        skip = [i for i, r in enumerate(o1["values"]) if str(r.get("bare", "")).startswith("refused")]
+        o2 = C.run_driver("drive_codec_api.py", {"dir": d, "phase": "read", "values": case["values"], "pre": case["second"], "skip": skip, "cache_objects": case.get("cache")})
+        return {"api_case": case, "o1": o1, "o2": o2}
+    except Exception as e:  # noqa
+        return {"api_case": case, "error": str(e)[-400:]}
+    finally:
+        shutil.rmtree(d, ignore_errors=True)
+
+
+def check_api(rep, res, shapes):
+    n_values = 0
+    for r in res:
+        c = r["api_case"]
+        rep.case("api:" + json.dumps(c)[:400], nontrivial=True)
+        if "error" in r:
+            rep.violation("harness-error:c17api", r["error"][-300:], r, no_input=True)
+            continue
+        rp = {"api_case": c}
+        regs = f" (registrations before {[x['ref'] for x in c['pre']]}, between write and read {[x['ref'] for x in c['mid']]}, in the second process {[x['ref'] for x in c['second']]})"
+        if r["o1"]["top"].get("eval") != "ok":
+            rep.violation("api:evaluation-fails", f"dds.eval of a pipeline keeping {[label(v) for v in c['values']][:12]}... fails: {r['o1']['top'].get('eval')}" + regs, rp)
+            continue
+        for v, w, x in zip(c["values"], r["o1"]["values"], r["o2"]["values"]):
+            n_values += 1
+            if str(w.get("bare")).startswith("refused"):
+                # not storable in the format: dds.keep must fail loudly and leave nothing that dds.load would return
+                shapes.refused.setdefault(v[1], w["bare"])
+                if not str(w.get("keep_refused"))[:2] in ("X:", "E:") or not str(w.get("load_refused"))[:2] in ("X:", "E:"):
+                    rep.violation(f"refused-by-format-but-stored:{v[0]}", f"{label(v)}: pandas refuses to write it as parquet ({w['bare']}); dds.keep gives {w.get('keep_refused')}, "
+                                  f"dds.load then gives {w.get('load_refused')}", dict(rp, value=v))
+                continue
+            if w.get("executed") != 1 or w.get("executed_again") != 0 or x.get("executed_again") != 0:
+                rep.violation(f"api:not-served-from-the-store:{v[0]}", f"{label(v)} kept by a pipeline: its function ran {w.get('executed')} time(s) during the evaluation, "
+                              f"{w.get('executed_again')} / {x.get('executed_again')} more time(s) when kept again in the same / in another process" + regs, dict(rp, value=v))
+            for proc, o in (("same-process", w), ("second-process", x)):
+                for ch in ("keep", "load", "tool"):
+                    if ch not in o:
+                        continue
+                    if is_shape(v):
+                        shapes.verdict(v, f"api-{ch}:{proc}", o[ch], rp, ctx=regs if (c["pre"] or len(c["mid"]) > 1) else "")
+                    elif o[ch] != "equal":
+                        what = {"keep": "a second dds.keep", "load": "dds.load", "tool": "the file under the data directory"}[ch]
+                        rep.violation(f"read-back-differs:{v[0]}:api-{ch}:{proc}", f"a {v[0]} result kept through dds.keep (written with {w.get('protocol')}): {what} gives "
+                                      f"{o[ch][:80]} ({proc})" + regs, dict(rp, value=v))
+    return n_values
 
 
 def run_case(case):
@@ -46,7 +159,11 @@ def run_case(case):
         for r in case["pre"]:
             steps1.append({"register": r})
         for i, v in enumerate(case["values"]):
+            if is_shape(v):
+                steps1.append({"bare": v})
             steps1.append({"store": v, "key": f"k{i}"})
+            if is_shape(v):
+                steps1.append({"has": True, "key": f"k{i}"})
         for r in case["mid"]:
             steps1.append({"register": r})
         for i, v in enumerate(case["values"]):
@@ -58,6 +175,8 @@ def run_case(case):
             steps2.append({"fetch": v, "key": f"k{i}"})
             if v[0] in ("str", "bytes", "bytearray"):
                 steps2.append({"raw": True, "key": f"k{i}"})
+            if is_shape(v) and v[0] == "frame":
+                steps2.append({"tool": v, "key": f"k{i}", "path": f"/c17/{v[1]}"})
         o2 = C.run_driver("drive_codec.py", {"dir": d, "steps": steps2})
         return {"case": case, "o1": o1, "o2": o2, "steps1": steps1, "steps2": steps2}
     except Exception as e:  # noqa
@@ -85,11 +204,14 @@ def run_killed(case):
         shutil.rmtree(d, ignore_errors=True)
 
 
+KILLED_FRAMES = [["frame", n] for n in ("range_offset", "range_named", "str_index", "multi_index", "datetime_index_tz", "categorical_columns", "no_row", "multi_columns")]
+
+
 def check_killed(rep, rng, n):
     cases = []
     strs = [v for v in VALUES if v[0] in ("str", "bytes")]
     for i in range(n):
-        v = rng.choice(strs if i % 2 == 0 else VALUES)
+        v = rng.choice(strs if i % 2 == 0 else (KILLED_FRAMES if i % 8 == 7 else VALUES))
         mine = [r for r in REGS if r.get("type") == v[0]] or REGS
         pre, second = ([], [rng.choice(mine)]) if i % 2 == 0 else ([rng.choice(mine)], [])
         if i % 4 >= 2:
@@ -113,7 +235,7 @@ def check_killed(rep, rng, n):
         k = len(c["second"])
         has, st, f2, raw = r["o2"][k:k + 4]
         f3 = r["o3"][-1]
-        what = f"a {v[0]} written under registrations {[x['ref'] for x in c['pre']]}, killed before its metadata, stored again under {[x['ref'] for x in c['second']]}"
+        what = f"a {label(v)} written under registrations {[x['ref'] for x in c['pre']]}, killed before its metadata, stored again under {[x['ref'] for x in c['second']]}"
         if has != "B0":
             rep.violation("killed:blob-without-metadata-reported-present", f"{what}: has_blob answers true for a blob without metadata", {"killed_case": c, "o2": r["o2"]})
         if st != "S:" + m:
@@ -129,11 +251,22 @@ def check_killed(rep, rng, n):
 def run(rep, tier, seed, proof_ok):
     rng = random.Random(seed)
     rep.rule = ("values of every storable type (str: empty / ascii / non-ASCII incl. astral / 200 kB / CR, CRLF and other line separators, NUL, BOM; bytes: empty / binary / 140 kB; bytearray; "
-                "None; picklable object; int; bool; instance of a user class; pandas frame; instances of subclasses of str / bytes incl. a str-mixin Enum) stored in the local store x sequences of codec "
+                "None; picklable object; int; bool; instance of a user class; pandas frame; pandas frames BY SHAPE: " + str(len(FRAMES) + len(LARGE_FRAMES)) + " shapes at the "
+                "boundaries of what the parquet file must carry besides the cells - positional index as slicing leaves it (offset, stepped, reversed, named, 1-based, empty, one row), "
+                "integer labels (selected, duplicated, named, unsorted, uint8), float / bool / text / non-ASCII labels, MultiIndex (named, unnamed, half named), datetime (irregular, "
+                "regular, tz), timedelta, period, categorical index, index named like a column / 'index'; categorical, datetime / tz / timedelta, nullable, object / bytes, float "
+                "specials, small int, interval, list columns; no row, no column, neither, one cell, 300 columns, text / int / mixed / duplicated column labels, named columns, "
+                "MultiIndex columns, attrs; 300 000 rows (thorough) - and " + str(len(SERIES)) + " Series; instances of subclasses of str / bytes incl. a str-mixin Enum) stored in the local store x sequences of codec "
                 "registrations (file codecs and codecs for str, bytes, object, NoneType, the user class, and a second codec reusing the "
                 "reference 'local.string') before the writes, between write and read, and in a second process in another order; "
                 "checks: value read back equal in both processes, the reference recorded in the metadata is the one the Coq model of "
-                "the registry selects, str / bytes blobs are byte-for-byte the UTF-8 text / the bytes; distinct = distinct case; "
+                "the registry selects, str / bytes blobs are byte-for-byte the UTF-8 text / the bytes; frames and Series compared with the value that plain execution gives by "
+                "pandas.testing.assert_frame_equal (exact cells, dtypes, index labels / dtype / names, column labels / names, categories, freq) + attrs, and the file that the path "
+                "designates under the data directory opened with plain pandas.read_parquet; a frame that pandas itself refuses to write as parquet must be refused loudly with "
+                "nothing readable left; a frame read back exactly as a bare to_parquet / read_parquet round trip alters it is reported under its own key; "
+                "the same values as results of functions kept through the PUBLIC API (dds.eval of a pipeline of dds.keep, then a second dds.keep - which must not execute "
+                "the function -, dds.load, the data-directory file; in the writing process and in a second process; registrations before / between / in the second process; "
+                "with and without the object cache); distinct = distinct case; "
                 "non-trivial = at least one registration between write and read; + writer killed between the rename of the blob and the rename of its "
                 "metadata, the key stored again by a process with other registrations, read there and in a third process")
     n = 10 if tier == "quick" and proof_ok else 80
@@ -141,14 +274,27 @@ def run(rep, tier, seed, proof_ok):
     for i in range(n):
         pre = rng.sample(REGS, rng.choice([0, 0, 1, 2]))
         mid = rng.sample(REGS, rng.choice([1, 2, 3]))
-        vals = rng.sample(VALUES, rng.randint(4, 8))
+        vals = rng.sample(VALUES, rng.randint(4, 8)) + rng.sample(FRAME_VALUES, rng.randint(2, 4))
         regs_in_force = pre + [r for r in mid if r not in pre]
         second = list(regs_in_force)
         rng.shuffle(second)
         cases.append({"pre": pre, "mid": mid, "values": vals, "second": second})
-    cases.insert(0, {"pre": [], "mid": [REGS[0]], "values": list(VALUES), "second": [REGS[0]]})     # every value, always
+    large = [["frame", n] for n in LARGE_FRAMES] if tier != "quick" else []
+    cases.insert(0, {"pre": [], "mid": [REGS[0]], "values": list(VALUES) + FRAME_VALUES + large, "second": [REGS[0]]})     # every value, every shape, always
+    # through the public API: every shape once, then random subsets under random registrations
+    api_cases = [{"pre": [], "mid": [REGS[0]], "second": [REGS[0]], "values": FRAME_VALUES + API_BUILTINS + large[:1], "cache": None}]
+    for i in range(2 if tier == "quick" and proof_ok else 14):
+        pre = rng.sample(REGS, rng.choice([0, 1, 2]))
+        mid = rng.sample(REGS, rng.choice([1, 2, 3]))
+        second = pre + [r for r in mid if r not in pre]
+        rng.shuffle(second)
+        api_cases.append({"pre": pre, "mid": mid, "second": second, "values": rng.sample(FRAME_VALUES, rng.randint(4, 8)) + rng.sample(API_BUILTINS, rng.randint(2, 4)),
+                          "cache": rng.choice([None, None, True, 2])})
+    shapes = Shapes()
     with cf.ThreadPoolExecutor(max_workers=C.NPROC) as ex:
+        api_futures = [ex.submit(run_api, c) for c in api_cases]
         res = list(ex.map(run_case, cases))
+        api_res = [f.result() for f in api_futures]
     # model: which reference each write selects, after the pre registrations
     exprs = []
     for c in cases:
@@ -158,6 +304,7 @@ def run(rep, tier, seed, proof_ok):
     model = C.coq_eval_strings(PRELUDE, exprs, label="c17")
     mi = 0
     refs = {}
+    n_shape_writes = {}
     for r in res:
         c = r["case"]
         rep.case(json.dumps(c)[:400], nontrivial=bool(c["mid"]))
@@ -168,21 +315,43 @@ def run(rep, tier, seed, proof_ok):
         o1, o2 = r["o1"], r["o2"]
         stores = [x for x, s in zip(o1, r["steps1"]) if "store" in s]
         fetch1 = [x for x, s in zip(o1, r["steps1"]) if "fetch" in s]
-        for v, s, f in zip(c["values"], stores, fetch1):
+        bare = {s["bare"][1]: x for x, s in zip(o1, r["steps1"]) if "bare" in s}
+        has1 = {s["key"]: x for x, s in zip(o1, r["steps1"]) if "has" in s}
+        refused = set()
+        for i, (v, s, f) in enumerate(zip(c["values"], stores, fetch1)):
             m = model[mi]
             mi += 1
+            if v[0] == "frame" and is_shape(v) and bare[v[1]].startswith("P:refused") and s[:2] in ("X:", "E:"):
+                # pandas itself refuses to write this frame as parquet: the store refuses loudly, and nothing must be readable under the key
+                refused.add(i)
+                shapes.refused.setdefault(v[1], bare[v[1]][2:])
+                if has1[f"k{i}"] != "B0" or not f.startswith("F:DIFFERENT:a NoneType"):
+                    rep.violation("refused-by-format-but-stored:frame", f"{label(v)}: the write fails ({s[:60]}) but has_blob answers {has1[f'k{i}']} and fetch_blob gives {f[:60]}",
+                                  {"case": c, "value": v})
+                continue
             refs[s] = refs.get(s, 0) + 1
+            if is_shape(v):
+                n_shape_writes[v[0]] = n_shape_writes.get(v[0], 0) + 1
+                if s == "S:" + m:
+                    shapes.verdict(v, "same-process", f[2:], {"case": c, "value": v}, ctx=f" after registrations {[x['ref'] for x in c['mid']]}" if len(c["mid"]) > 1 else "")
+                    continue
             if s != "S:" + m:
-                rep.violation("model-mismatch:codec-selection", f"value of type {type_name(v)} after registrations {[x['ref'] for x in c['pre']]}: "
+                rep.violation("model-mismatch:codec-selection", f"value of type {type_name(v)} ({label(v)}) after registrations {[x['ref'] for x in c['pre']]}: "
                               f"written with {s}, the model of the registry selects {m}", {"case": c, "value": v[:1], "impl": s, "model": m})
             if f != "F:equal":
                 rep.violation(f"read-back-differs:{v[0]}:same-process", f"value of type {v[0]} written with {s} is read back as {f[:80]} after registrations "
                               f"{[x['ref'] for x in c['mid']]}", {"case": c, "value": v[:1], "stored": s, "fetched": f})
         k = 0
         for s2, x in zip(r["steps2"], o2):
-            if "fetch" in s2:
-                v = s2["fetch"]
-                if x != "F:equal":
+            if "fetch" in s2 or "tool" in s2:
+                v = s2.get("fetch") or s2["tool"]
+                if int(s2["key"][1:]) in refused:
+                    if "fetch" in s2 and not x.startswith("F:DIFFERENT:a NoneType"):
+                        rep.violation("refused-by-format-but-stored:frame", f"{label(v)}: the write failed but a second process reads {x[:60]}", {"case": c, "value": v})
+                elif is_shape(v):
+                    shapes.verdict(v, "second-process" if "fetch" in s2 else "data-directory-file", x[2:], {"case": c, "value": v},
+                                   ctx=f" in a second process that registered {[y['ref'] for y in c['second']]}" if len(c["second"]) > 1 else "")
+                elif x != "F:equal":
                     rep.violation(f"read-back-differs:{v[0]}:second-process", f"value of type {v[0]} is read back as {x[:80]} in a second process that registered "
                                   f"{[y['ref'] for y in c['second']]}", {"case": c, "value": v[:1], "fetched": x})
             elif "raw" in s2:
@@ -192,17 +361,41 @@ def run(rep, tier, seed, proof_ok):
                 want = v[1].encode("utf-8").hex() if v[0] == "str" else v[1]
                 if stored_with in ("S:local.string", "S:local.bytes") and x != "R:" + want:
                     rep.violation(f"not-verbatim:{v[0]}", f"the blob file of a {v[0]} result is not the text / the bytes themselves", {"case": c, "value": v[:1], "raw": x[:80]})
+    n_api_values = check_api(rep, api_res, shapes)
+    shapes.report(rep)
     nk, nk_killed = check_killed(rep, rng, 16 if tier == "quick" and proof_ok else 120)
-    rep.extra["input_distribution"] = {"cases": len(cases), "writes_by_selected_reference": refs, "killed_before_metadata_cases": nk, "of_which_reached_the_kill_point": nk_killed}
+    rep.extra["input_distribution"] = {"cases": len(cases), "writes_by_selected_reference": refs, "killed_before_metadata_cases": nk, "of_which_reached_the_kill_point": nk_killed,
+                                       "frame_shapes": len(FRAMES) + len(large), "series_shapes": len(SERIES), "store_level_writes_of_shaped_pandas_values": n_shape_writes,
+                                       "public_api_cases": len(api_cases), "public_api_values_kept_and_read_back": n_api_values,
+                                       "read_back_comparisons_of_pandas_values": shapes.checked,
+                                       "read_back_channels": ["fetch_blob same process", "fetch_blob second process", "data-directory file with plain pandas", "second dds.keep", "dds.load",
+                                                              "the last three in a second process"],
+                                       "frames_refused_by_the_parquet_format": sorted(shapes.refused), "frames_altered_by_the_parquet_format": sorted(shapes.as_bare)}
     rep.sample({"pre": cases[0]["pre"], "mid": cases[0]["mid"], "value_types": [v[0] for v in cases[0]["values"]]})
 
 
 def replay(path):
     r = json.load(open(path))["replay"]
+    keep = r.get("failing") or ([r["value"]] if is_shape(r.get("value") or ["?"]) else None)
+    for k in ("api_case", "case"):
+        if keep and k in r:            # only the values that failed
+            r[k] = dict(r[k], values=[v for v in r[k]["values"] if v in keep])
+    if "api_case" in r:
+        out = run_api(r["api_case"])
+        for v, w, x in zip(r["api_case"]["values"], (out.get("o1") or {}).get("values", []), (out.get("o2") or {}).get("values", [])):
+            if any(str(o.get(ch, "equal")) != "equal" for o in (w, x) for ch in ("keep", "load", "tool")):
+                print(json.dumps({"value": v, "process1": w, "process2": x})[:900])
+        print(json.dumps({"top": (out.get("o1") or {}).get("top"), "error": out.get("error")}))
+        return 1
     if "killed_case" in r:
         out = run_killed(r["killed_case"])
         print(json.dumps({k: out.get(k) for k in ("o1", "o2", "o3", "error")}, indent=1)[:3000])
         return 1
     out = run_case(r["case"])
+    if keep:
+        for proc, st, o in [(1, a, b) for a, b in zip(out.get("steps1", []), out.get("o1", []))] + [(2, a, b) for a, b in zip(out.get("steps2", []), out.get("o2", []))]:
+            if "register" not in st and "has" not in st:
+                print(f"process {proc}:", json.dumps(st)[:100], "->", o[:300])
+        return 1
     print(json.dumps({"o1": out.get("o1"), "o2": out.get("o2")}, indent=1)[:3000])
     return 1
